@@ -13,7 +13,8 @@ FlowsLib == [BOC |-> <<"backup", "write", "close">>,
              OC  |-> <<"write", "close">>,
              BC  |-> <<"backup", "close">>,
              C   |-> <<"close">>,
-             BOBC |-> <<"backup", "write", "backup", "close">>]
+             BOBC |-> <<"backup", "write", "backup", "close">>,
+             OBC |-> <<"write", "backup", "close">>]
 
 \* every order of up to four calls (two backups / two overwrites in one session,
 \* backup after overwrite, ...): the design must be safe for any client
